@@ -1,5 +1,5 @@
 (* C03 - A clean restart preserves every message, offset and the append position. *)
-From IggyV Require Import Base.Tactics Base.ListX Model.Part Model.PartSpec Proofs.PartBasics.
+From IggyV Require Import Base.Tactics Base.ListX Model.Part Model.PartSpec Proofs.PartBasics Proofs.PartHistory.
 Open Scope N_scope.
 
 Definition C03_full : Prop := forall c t0 ops, model_check c t0 ops = 0.
@@ -18,6 +18,19 @@ Theorem C03_load_after_flush : forall c now q,
   (forall s, In s (p_segs q) -> acc_msgs s = []) -> part_all (load c now q) = part_all q.
 Proof. exact load_all. Qed.
 
+(* PROVED, history level: in every state reached by any history (same side conditions as C01_history_partial: positive segment
+   size, offsets below 2^32, no message expiry configured) a clean restart preserves the messages, the earliest offset AND
+   the append position: the next message gets the same offset it would have got without the restart. *)
+Theorem C03_restart_preserves_partial : forall ops c t0 now, good_cfg c -> Forall no_expiry_op ops ->
+  Forall (fun q => abase q <= B32) (prun_states (c, part_new c t0) ops) ->
+  let c' := fst (pfinal (c, part_new c t0) ops) in let p := snd (pfinal (c, part_new c t0) ops) in
+  part_all (restart c' now p) = part_all p /\ first_start (restart c' now p) = first_start p /\ abase (restart c' now p) = abase p.
+Proof.
+  intros ops c t0 now Hc Hops Hb. cbn zeta. destruct (history_J ops c (part_new c t0) Hc (J_new c t0) Hops Hb) as [HJ [Hseg _]].
+  destruct (restart_facts _ now _ Hseg HJ) as [_ [A [B C]]]. split; [exact C | split; [exact B | exact A]].
+Qed.
+
 Print Assumptions C03_restart_keeps_messages.
 Print Assumptions C03_restart_keeps_offsets.
 Print Assumptions C03_load_after_flush.
+Print Assumptions C03_restart_preserves_partial.
